@@ -98,7 +98,7 @@ def convert_dvars():
             && r[i].name == (if qplib.var_names@.contains_key(i as usize) { Some(qplib.var_names@[i as usize]) } else { None::<String> })
             && r[i].substituted_value is None && r[i].subscripts.len() == 0 && r[i].description is None,''',
                 rsubs=[(r'izip!\(var_types, lower_bounds, upper_bounds\)\.enumerate\(\)', 'enumerate_vec(zip3(var_types, lower_bounds, upper_bounds))', 1),
-                       (r'var_names\.get\(&i\)\.cloned\(\)', 'opt_cloned(var_names.get(&i))', 1),
+                       (r'var_names\.get\(&(\w+|\([^()]*\))\)\.cloned\(\)', r'opt_cloned(var_names.get(&\1))', 1),      # whatever key expression is looked up stays in the dialect
                        (r'let mut dvars = Vec::with_capacity\(var_types\.len\(\)\);', 'let mut dvars: Vec<v1::DecisionVariable> = Vec::new();', 1),
                        (r'\.\.Default::default\(\)', 'parameters: HashMap::new(), subscripts: Vec::new(), description: None, substituted_value: None', 1)],
                 loops=[dict(kind='for', it='it_1', pat='(i, (t, lower, upper))', rebind='(__e.0, (&__e.1.0, __e.1.1, __e.1.2))', body_proof=' proof { assert(*__e == __h1[it_1.index@ as int]); }',
